@@ -79,7 +79,7 @@ func (m *memConn) Close() error                { return nil }
 
 func main() {
 	run := vr.New("C03", "exploration")
-	run.Rule("dimensions auth key(4) x salt(6) x session id(6) x msg_id(4) x seq_no(5) x ack(2) at <=2 deviations from the first value of each, crossed fully with every body length 0..N (so every padding amount 0..15); both directions; the same cases through transport.WriteMsg/ReadMsg on an injected connection for a sub-range; unencrypted messages for every length. non-trivial = distinct case where the repository function returned and the oracle compared fields")
+	run.Rule("dimensions auth key(4) x salt(6) x session id(6) x msg_id(4) x seq_no(5) x ack(2) x cached key-id field(3: right, empty, stale) at <=2 deviations from the first value of each, crossed fully with every body length 0..N (so every padding amount 0..15); both directions; the same cases through transport.WriteMsg/ReadMsg on an injected connection for a sub-range; unencrypted messages for every length. non-trivial = distinct case where the repository function returned and the oracle compared fields")
 	run.Assume("reference R2 (harness/ref/mtp1) implements MTProto 1.0 (description_v1)", "transport level uses the real transport and intermediate mode over an in-memory connection (overlay-added constructor)")
 	N := 80
 	extra := []int{}
@@ -94,7 +94,7 @@ func main() {
 		lengths = append(lengths, n)
 	}
 	lengths = append(lengths, extra...)
-	sizes := []int{len(authKeys), len(longs), len(longs), 4, len(seqs), 2}
+	sizes := []int{len(authKeys), len(longs), len(longs), 4, len(seqs), 2, 3}
 	enum.All(sizes, 2, func(ix []int) {
 		key, salt, sess, seq, ack := authKeys[ix[0]], longs[ix[1]], longs[ix[2]], seqs[ix[4]], ix[5] == 1
 		inf := &informator{key: key, salt: salt, session: sess, seq: seq}
@@ -109,7 +109,10 @@ func main() {
 				var pkt []byte
 				var err error
 				p, pm, fr := vr.Try(func() {
-					pkt, err = (&messages.Encrypted{Msg: append([]byte{}, body...), MsgID: msgID, AuthKeyHash: mtp1.KeyID(key)}).Serialize(inf, ack)
+					// the AuthKeyHash field of the message is a cache; whatever it holds (right id, nothing, a
+					// stale id from a session record) the id on the wire must be derived from the key in use
+					hashField := [][]byte{mtp1.KeyID(key), nil, {1, 2, 3, 4, 5, 6, 7, 8}}[ix[6]]
+					pkt, err = (&messages.Encrypted{Msg: append([]byte{}, body...), MsgID: msgID, AuthKeyHash: hashField}).Serialize(inf, ack)
 				})
 				run.Eval(id, !p && err == nil)
 				switch {
